@@ -487,9 +487,13 @@ impl<'tcx> Cx<'tcx> {
                             j.set("active_field", J::UInt(a.as_usize() as u128));
                         }
                     }
-                    AggregateKind::Closure(did, _) => {
+                    AggregateKind::Closure(did, cargs) => {
                         j.set("ak", J::s("closure"));
                         j.set("closure", J::s(self.path(*did)));
+                        if mono {
+                            let ci = Instance::new_raw(*did, cargs);
+                            j.set("ckey", J::s(inst_key(ci)));
+                        }
                     }
                     AggregateKind::RawPtr(..) => {
                         j.set("ak", J::s("rawptr"));
@@ -1189,8 +1193,21 @@ pub fn run<'tcx>(tcx: TyCtxt<'tcx>) {
                     }
                 }
             }
-            // closures constructed here become callable through Fn traits; they are reached by
-            // the resolved `call` instance, nothing to do.
+            // closures constructed here may only be invoked from library code we do not descend into
+            // (Iterator::fold, map, …): add their bodies explicitly
+            for st in bb.statements.iter() {
+                if let StatementKind::Assign(a) = &st.kind {
+                    if let Rvalue::Aggregate(ak, _) = &a.1 {
+                        if let AggregateKind::Closure(cd, cargs) = &**ak {
+                            let ci = Instance::new_raw(*cd, cargs);
+                            let ck = inst_key(ci);
+                            if seen.insert(ck) {
+                                work.push_back(ci);
+                            }
+                        }
+                    }
+                }
+            }
         }
         let mut j = cx.body(&body, env_mono, true, did);
         j.set("key", J::s(key));
